@@ -115,3 +115,11 @@ for op, name in EDIT_OPS.items():
         QM(('C06', 'C07', 'C08'), 'edit.%s.K%d' % (name, K), 'harness/edit.c', defs=['-DOP=%d' % op, '-DK=%d' % K], unwind=K + 3,
            unwindset=ML(K + 4, 60) + ['cJSON_Delete:2', 'cJSON_Delete.0:3', 'vf_build_rec:3', 'vf_memcpy.0:66', 'strlen.0:6', 'strcmp.0:6', 'strcpy.0:6', 'memcmp.0:4', 'check_list.0:%d' % (K + 3)],
            tiers=('quick', 'thorough') if K == 3 else ('thorough',), cost=K * 5, functions=['cJSON_' + name if op < 18 else name, 'add_item_to_array', 'add_item_to_object', 'create_reference', 'get_array_item', 'get_object_item', 'cJSON_Delete', 'cJSON_strdup'])
+CRFN = ['cJSON_CreateNull', 'cJSON_CreateTrue', 'cJSON_CreateFalse', 'cJSON_CreateBool', 'cJSON_CreateNumber', 'cJSON_CreateString', 'cJSON_CreateRaw', 'cJSON_CreateArray', 'cJSON_CreateObject',
+        'cJSON_CreateStringReference', 'cJSON_CreateObjectReference', 'cJSON_CreateArrayReference', 'cJSON_New_Item', 'cJSON_strdup', 'cJSON_Delete']
+QM(('C06', 'C07', 'C08'), 'create.single', 'harness/create.c', defs=['-DCNT=1'], unwind=5, unwindset=ML(6, 70) + ['cJSON_Delete:1', 'cJSON_Delete.0:2', 'vf_memcpy.0:66', 'strlen.0:6', 'strcmp.0:6'], cost=5, functions=CRFN)
+for w, nm in ((12, 'IntArray'), (13, 'FloatArray'), (14, 'DoubleArray'), (15, 'StringArray')):
+    for cnt in (2, 3, 4):
+        QM(('C06', 'C07', 'C08'), 'create.%s.CNT%d' % (nm, cnt), 'harness/create.c', defs=['-DCNT=%d' % cnt, '-DWHICH=%d' % w], unwind=cnt + 3,
+           unwindset=ML(cnt + 4, 70) + ['cJSON_Delete:1', 'cJSON_Delete.0:%d' % (cnt + 2), 'vf_memcpy.0:66', 'strlen.0:6', 'strcmp.0:6'], cost=cnt * 6,
+           tiers=('quick', 'thorough') if cnt == (2 if w == 15 else 3) else ('thorough',), timeout=1200, functions=['cJSON_Create' + nm, 'cJSON_CreateNumber', 'cJSON_CreateString', 'cJSON_CreateArray', 'suffix_object', 'cJSON_Delete'])
